@@ -154,10 +154,17 @@ def loop_exits(model, res):
         raise AnalysisError("C05: the bar loop `for ... in index_array` was not found in Actuator.run")
     lp = loops[0]
     bad = []
-    for n in ast.walk(lp):
-        if isinstance(n, (ast.Break, ast.Continue, ast.Return)):
-            # allowed only inside nested loops over triggers/markets? none today
-            bad.append(n)
+
+    def scan(node, own):
+        """own: is the bar loop the nearest enclosing loop of `node`'s children?"""
+        for ch in ast.iter_child_nodes(node):
+            if isinstance(ch, (ast.FunctionDef, ast.AsyncFunctionDef, ast.Lambda)):
+                continue
+            if isinstance(ch, ast.Return) or (own and isinstance(ch, (ast.Break, ast.Continue))):
+                bad.append(ch)       # break / continue of a nested loop (over markets, triggers) leave the bar's phases intact
+            scan(ch, own and not isinstance(ch, (ast.For, ast.While)))
+
+    scan(lp, True)
     res.ob("R-PHASE", "the bar loop iterates the index itself and has no break/continue/return", f.loc(lp), ok=not bad)
     for n in bad:
         res.find("R-PHASE", "Actuator.run", f"`{type(n).__name__.lower()}` inside the bar loop", f.loc(n),
